@@ -40,6 +40,26 @@ def execute(case):
             line["res"].append({"flags": list(f), "ab": bool(a.equals(b, **kw)), "ba": bool(b.equals(a, **kw))})
         line["aa"], line["bb"] = bool(a.equals(a)), bool(b.equals(b))
         line["copyEq"] = bool(a.equals(a.copy())) and bool(a.copy().equals(a)) and bool(b.equals(b.copy()))
+        # a copy taken in any freshness state equals its original: copy after a relative-side and after an
+        # absolute-side operation (content compared through the projection as well)
+        for ops in (("transpose",), ("set_channel",), ("pad",), ("cutoff",), ("transpose", "add_absolute_message"),
+                    ("add_absolute_message", "transpose")):
+            x = build_route(pair["other"], route, idx)
+            for op in ops:
+                if op == "transpose":
+                    x.transpose(1)
+                elif op == "set_channel":
+                    x.set_channel(1)
+                elif op == "pad":
+                    x.pad(50)
+                elif op == "cutoff":
+                    x.cutoff(3, 2)
+                elif op == "add_absolute_message":
+                    x.add_absolute_message(P.mk(P.cc(2, 64, 5)))
+            cp = x.copy()
+            same = P.views(cp) == P.views(x)
+            if not (bool(x.equals(cp)) and bool(cp.equals(x)) and same):
+                line["copyEq"] = False
         line["eqOp"] = bool(a == b)
     except Exception as e:
         line["raised"] = f"{type(e).__name__}: {e}"
